@@ -952,4 +952,93 @@ theorem listOk_lax (l : List DNode) : listOk false (fun _ => true) l = true :=
     (by simp [listOk]) (fun k ks h1 h2 => by simp [listOk, h1, h2])
     (fun c alt h => by simp [pairOk, h]) l
 
+/-! ### `schema_rules`: priority order -/
+
+theorem mem_insertRule (r x : RuleSpec) : ∀ l, x ∈ insertRule r l ↔ x = r ∨ x ∈ l
+  | [] => by simp [insertRule]
+  | y :: ys => by
+    unfold insertRule
+    split
+    · simp
+    · simp only [List.mem_cons, mem_insertRule r x ys]
+      constructor
+      · rintro (h | h | h)
+        · exact Or.inr (Or.inl h)
+        · exact Or.inl h
+        · exact Or.inr (Or.inr h)
+      · rintro (h | h | h)
+        · exact Or.inr (Or.inl h)
+        · exact Or.inl h
+        · exact Or.inr (Or.inr h)
+
+theorem insertRule_sorted (r : RuleSpec) : ∀ l : List RuleSpec, l.Pairwise (fun a b => b.prio ≤ a.prio) →
+    (insertRule r l).Pairwise (fun a b => b.prio ≤ a.prio)
+  | [], _ => by simp [insertRule]
+  | y :: ys, h => by
+    unfold insertRule
+    rw [List.pairwise_cons] at h
+    split
+    · rename_i hlt
+      refine List.pairwise_cons.2 ⟨?_, List.pairwise_cons.2 h⟩
+      intro b hb
+      rcases List.mem_cons.1 hb with rfl | hb
+      · exact Int.le_of_lt hlt
+      · exact Int.le_trans (h.1 b hb) (Int.le_of_lt hlt)
+    · rename_i hge
+      refine List.pairwise_cons.2 ⟨?_, insertRule_sorted r ys h.2⟩
+      intro b hb
+      rcases (mem_insertRule r b ys).1 hb with rfl | hb
+      · exact Int.not_lt.1 hge
+      · exact h.1 b hb
+
+theorem insertRule_perm (r : RuleSpec) : ∀ l : List RuleSpec, (insertRule r l).Perm (r :: l)
+  | [] => by simp [insertRule]
+  | y :: ys => by
+    unfold insertRule
+    split
+    · exact List.Perm.refl _
+    · exact ((insertRule_perm r ys).cons y).trans (List.Perm.swap r y ys)
+
+/-- rules of equal priority keep the order in which they were inserted -/
+theorem insertRule_filter (r : RuleSpec) (p : Int) : ∀ l : List RuleSpec, l.Pairwise (fun a b => b.prio ≤ a.prio) →
+    (insertRule r l).filter (fun x => x.prio == p) = l.filter (fun x => x.prio == p) ++ [r].filter (fun x => x.prio == p)
+  | [], _ => by simp [insertRule]
+  | y :: ys, h => by
+    unfold insertRule
+    rw [List.pairwise_cons] at h
+    split
+    · rename_i hlt
+      by_cases hr : r.prio = p
+      · have hnone : (y :: ys).filter (fun x => x.prio == p) = [] := by
+          rw [List.filter_eq_nil_iff]
+          intro a ha
+          have : a.prio ≤ y.prio := by
+            rcases List.mem_cons.1 ha with rfl | ha
+            · exact Int.le_refl _
+            · exact h.1 a ha
+          simp only [beq_iff_eq]
+          omega
+        rw [List.filter_cons, hnone]
+        simp [hr]
+      · simp [List.filter_cons, hr]
+    · rw [List.filter_cons, List.filter_cons, insertRule_filter r p ys h.2]
+      split <;> simp
+
+theorem schemaRules_snoc (specs : List RuleSpec) (r : RuleSpec) : schemaRules (specs ++ [r]) = insertRule r (schemaRules specs) := by
+  simp [schemaRules, List.foldl_append]
+
+theorem schemaRules_spec : ∀ (specs : List RuleSpec),
+    (schemaRules specs).Pairwise (fun a b => b.prio ≤ a.prio) ∧ (schemaRules specs).Perm specs ∧
+    ∀ p, (schemaRules specs).filter (fun x => x.prio == p) = specs.filter (fun x => x.prio == p) := by
+  intro specs
+  refine snoc_induction (P := fun specs => (schemaRules specs).Pairwise (fun a b => b.prio ≤ a.prio) ∧
+    (schemaRules specs).Perm specs ∧
+    ∀ p, (schemaRules specs).filter (fun x => x.prio == p) = specs.filter (fun x => x.prio == p)) ?_ ?_ specs
+  · simp [schemaRules]
+  · intro l r ih
+    rw [schemaRules_snoc]
+    refine ⟨insertRule_sorted r _ ih.1, ?_, fun p => ?_⟩
+    · exact (insertRule_perm r _).trans (((ih.2.1.cons r)).trans (List.perm_append_singleton r l).symm)
+    · rw [insertRule_filter r p _ ih.1, ih.2.2 p, List.filter_append]
+
 end PM.DomWalk
